@@ -54,7 +54,7 @@ CONSTS = {
 }
 
 
-def _pipe(out, module, cfg, exe, timeout=12000, nproc=8, workers=8):
+def _pipe(out, module, cfg, exe, timeout=12000, nproc=4, workers=4):
     p = C.Piper([exe, "t"], timeout=timeout, nproc=nproc)
     res = C.tlc(module, cfg, workers=workers, on_chunk=p.feed_chunk, timeout=timeout, heap="6g")
     p.close()
@@ -92,13 +92,13 @@ def run(out, tier):
 
     def gen():
         try:
-            box["r"] = _pipe(out, "SchemaStructGen", k["gen"], exe, workers=6)
+            box["r"] = _pipe(out, "SchemaStructGen", k["gen"], exe, workers=4)
         except BaseException as ex:     # re-raised in the main thread
             box["ex"] = ex
     th = threading.Thread(target=gen, daemon=True)
     th.start()
     # 1. the specification satisfies C08 on itself: operational verdict = declarative validity, UPA of the family
-    r = C.tlc("SchemaStruct", k["check"], workers=8, coverage=True, timeout=12000, heap="6g")
+    r = C.tlc("SchemaStruct", k["check"], workers=4, coverage=True, timeout=12000, heap="6g")
     th.join()
     C.tlc_must_pass(r, "SchemaStruct/" + k["check"])
     if "ex" in box:
